@@ -9,6 +9,7 @@ holds on every state of mask-respecting play; `s.amask = maskOf cfg s` (the cach
 holds after `reset` and after every `step` (`jobshop_cached_mask_*`).
 -/
 import JumanjiModel.Env.JobShop.Lemmas
+import JumanjiModel.Env.JobShop.Bounds
 open Jm JobShop
 
 /-- a concrete mid-episode state (2 jobs, 2 machines, 2 ops; job 0's first op runs on machine 0
@@ -18,6 +19,38 @@ def JobShop.exState : State :=
   { mid := [[0, 1], [0, -1]], dur := [[2, 1], [1, -1]], opsMask := [[false, true], [true, false]],
     mjob := [0, 2], mrem := [1, 0], amask := [[false, false, true], [false, false, true]],
     stepCount := 1, sched := [[0, -1], [-1, -1]] }
+
+namespace Props.C01
+/-- `reset` (either generator; ANY instance arrays of shape `J × O` with machine ids in `[-1, M-1]` and durations
+in `[-1, D]`): every leaf of the observation lies in the interval `obsBounds cfg` lists for it
+(ops_machine_ids ∈ [-1, M-1], ops_durations ∈ [-1, D], machines_job_ids ∈ [0, J],
+machines_remaining_times ∈ [0, D-1] (`[0, 0]` when `D = 0`), ops_mask, action_mask ∈ {0, 1}) -/
+theorem jobshop_reset_obs_in_bounds (cfg : Cfg) (mid dur : List (List Int)) (h : validDraw cfg mid dur) :
+    Jm.OB.InBounds (obsBounds cfg) (obsLeaves (reset cfg mid dur).2.obs) :=
+  JobShop.reset_obs_in_bounds cfg mid dur h
+
+/-- every step — all sizes, ANY state satisfying the bounds invariant (no shape or feasibility assumption), any
+action whose entries for the machines are job ids or the no-op (`0 ≤ a[m] ≤ J`, i.e. every action of the action
+spec), valid or not, terminal step included -/
+theorem jobshop_step_obs_in_bounds (cfg : Cfg) (s : State) (a : List Int) (h : BInv cfg s) (ha : ActIn cfg a) :
+    Jm.OB.InBounds (obsBounds cfg) (obsLeaves (step cfg s a).2.obs) :=
+  JobShop.step_obs_in_bounds cfg s a h ha
+
+/-- the invariant `BInv` (instance arrays, `machines_job_ids`, `machines_remaining_times` inside their intervals)
+is established by `reset` and preserved by every such step, so the bounds hold along every episode -/
+theorem jobshop_reset_binv (cfg : Cfg) (mid dur : List (List Int)) (h : validDraw cfg mid dur) :
+    BInv cfg (reset cfg mid dur).1 := JobShop.reset_binv cfg mid dur h
+theorem jobshop_step_binv (cfg : Cfg) (s : State) (a : List Int) (h : BInv cfg s) (ha : ActIn cfg a) :
+    BInv cfg (step cfg s a).1 := JobShop.step_binv cfg s a h ha
+
+/-- every action of the action spec satisfies the action hypothesis -/
+theorem jobshop_inspec_actin (cfg : Cfg) (a : List Int) (h : InSpec cfg a) : ActIn cfg a :=
+  JobShop.actIn_of_inSpec cfg a h
+
+example : validDraw exCfg exState.mid exState.dur := by decide
+example : BInv exCfg exState := by decide
+example : ActIn exCfg [1, 2] := by decide
+end Props.C01
 
 namespace Props.C04
 /-- on every state satisfying the invariant, the mask entry (machine `m`, choice `c`) is set exactly
